@@ -1,7 +1,8 @@
 (* GENERATED from include/yara/pe_utils.h, include/yara/dex.h, modules/elf/elf.c, modules/macho/macho.c,
    modules/pe/pe_utils.c by lib/genbounds.py: do not edit *)
-From Coq Require Import ZArith Bool.
+From Coq Require Import ZArith Bool List.
 From YV Require Import Base.USem.
+Import ListNotations.
 Local Open Scope Z_scope.
 
 Definition MAX_PE_SECTIONS : Z := 96.
@@ -75,3 +76,18 @@ Definition exp_ordinals_index_bound (nexp nnames : Z) : Z := nexp.
 Definition exp_functions_index_bound (nexp nnames : Z) : Z := (Z.max nexp nexp).
 (* names[index] is evaluated at 1 place(s); the index is known to be below: number_of_exports and number_of_names *)
 Definition exp_names_index_bound (nexp nnames : Z) : Z := (Z.min nexp nnames).
+
+(* ---- dotnet.c: the functions that carry a `depth` parameter against loops
+   0 = get_type_def_or_ref_fullname   (no test of its own)
+   1 = parse_signature_type   returns when depth > MAX_TYPE_DEPTH = 16, before any call
+   2 = parse_enclosing_types   returns when depth > MAX_NAMESPACE_DEPTH = 10, before any call
+   calls (caller, callee, what is added to depth; -1: a constant is passed, the callee counts afresh): *)
+Definition dotnet_depth_guarded : list bool := [false; true; true].
+Definition dotnet_depth_limits : list Z := [0; 16; 10].
+Definition dotnet_depth_calls : list (nat * nat * Z) := [(0%nat, 1%nat, 0); (0%nat, 2%nat, -1); (1%nat, 0%nat, 1); (1%nat, 1%nat, 1); (1%nat, 1%nat, 1); (1%nat, 1%nat, 1); (1%nat, 1%nat, 1); (1%nat, 1%nat, 1); (1%nat, 1%nat, 1); (1%nat, 1%nat, 1); (1%nat, 1%nat, 1); (1%nat, 1%nat, 1); (2%nat, 2%nat, 1)].
+(* certificates computed by the translator (checked in Coq): a rank that decreases along every call that passes depth
+   unchanged, and one that decreases along every call between two functions without a test *)
+Definition dotnet_zero_rank : list nat := [1%nat; 0%nat; 0%nat].
+Definition dotnet_unguarded_rank : list nat := [0%nat; 0%nat; 0%nat].
+(* and one that never increases along a call and decreases where a constant is passed *)
+Definition dotnet_reset_rank : list nat := [3%nat; 3%nat; 1%nat].
